@@ -55,9 +55,11 @@ CHILD_TIMEOUT = 120
 FP_REUSE = "C15|wellformed-or-absent|Search.__init__|evaluator used by an earlier search, no results.csv in log_dir"
 
 
-def _headerless(scn, lines):
-    """the signature of 10e: an evaluator that already dumped appends to a new file"""
-    return any(r.get("reuse") for r in scn["runs"]) and bool(lines) and lines[0][0] != "h"
+def _headerless(scn, lines, phase=None):
+    """the signature of 10e: an evaluator that already dumped appends to a new file (rows without a header
+    line, or the empty file its open(..., "a") creates)"""
+    return any(r.get("reuse") for r in scn["runs"]) and (
+        (bool(lines) and lines[0][0] != "h") or (not lines and phase == "append-dump"))
 
 
 def _fp_nd(scn):
@@ -471,6 +473,7 @@ def _tag_lines(ops):
                 if "job_id" in cells and not torn:
                     hdr[n] = cells
                     tags.append(["h", cells[-1] == "pareto_efficient"])
+                    o["objective_columns"] = sum(1 for c in cells if c == "objective" or re.match(r"objective_\d+$", c))
                     continue
                 h = hdr.get(n)
                 if h is None:
@@ -531,6 +534,8 @@ def _task(task):
                "marks": [l for l in sidefiles.get("marks.log", "").split("\n") if l],
                "snaps": {n: t for n, t in sidefiles.items() if n.startswith("snap_")},
                "err": sidefiles.get("child_err.txt")}
+        if task.get("torn"):
+            out["torn"] = _torn_variants(raw, log_dir, base)
         if task.get("post"):
             side2 = os.path.join(base, "side2")
             os.makedirs(side2)
@@ -545,6 +550,56 @@ def _task(task):
         return out
     finally:
         shutil.rmtree(base, ignore_errors=True)
+
+
+def _fit_file(path, base):
+    """does the real CBO.fit_surrogate accept this file? (space read off its header)"""
+    from deephyper.hpo import CBO
+
+    try:
+        with open(path) as f:
+            cols = f.readline().strip().split(",")
+        wide = sum(1 for c in cols if re.match(r"p:w\d+$", c))
+        s = CBO(_problem(wide), lambda job: 0.0, log_dir=os.path.join(base, "fitld"), random_state=1,
+                surrogate_model="ET", surrogate_model_kwargs={"n_estimators": 2}, n_points=64, acq_optimizer="sampling")
+        s.fit_surrogate(path)
+        return "ok"
+    except Exception as e:  # noqa
+        return f"{type(e).__name__}: {e}"[:200]
+
+
+def _torn_variants(raw, log_dir, base):
+    """second injection mode: the write(2) on whose entry the process was killed is executed PARTIALLY
+    (its first m bytes reach the file), as if the kernel had torn it; returns what results.csv then holds
+    and what fit_surrogate makes of it, for a few offsets m"""
+    kop = next((o for o in reversed(raw) if o.get("killed")), None)
+    if kop is None or kop["op"] != "write" or not _is_result_name(kop["n"]):
+        return []
+    data = kop["data"].encode()
+    n = len(data)
+    cuts = {1, n // 2, n - 1}
+    nl = data.find(b"\n")
+    if 0 <= nl < n - 1:
+        cuts.add(nl + 1)  # exactly after a complete line
+        cuts.add(nl + 1 + max(1, (n - nl) // 3))
+    last = data.rstrip(b"\r\n").rfind(b"\n") + 1
+    cuts.add(last + max(1, (n - last) // 2))  # inside the last line
+    out = []
+    for m in sorted(c for c in cuts if 0 < c < n):
+        d = os.path.join(base, f"torn_{m}")
+        shutil.copytree(log_dir, d)
+        with open(os.path.join(d, kop["n"]), "ab") as f:
+            f.write(data[:m])
+        res = os.path.join(d, "results.csv")
+        text = None
+        if os.path.exists(res):
+            with open(res, "rb") as f:
+                text = f.read().decode("utf-8", "replace")
+        out.append({"m": m, "of": n, "target": kop["n"], "text": text,
+                    "fit": _fit_file(res, d) if text is not None else None,
+                    "ends_line": data[:m].endswith(b"\n")})
+        shutil.rmtree(d, ignore_errors=True)
+    return out
 
 
 def _mutations(text):
@@ -711,7 +766,14 @@ def _acts_of(scn, rec):
         elif g["kind"] == "read":
             nread[sid] = nread.get(sid, 0) + 1
             if nread[sid] % 2 == 1:
-                acts.append({"a": "end", "multi": scn["runs"][sid]["nobj"] > 1, "sizes": []})
+                # the Pareto rewrite is made iff the table has several objective columns; that is the number of
+                # objectives of the run-function, except when no evaluation had succeeded when the header was
+                # written (C04: a single `objective` column then)
+                ncol = next((o["objective_columns"] for o in ops if o.get("sid", 0) == sid and "objective_columns" in o), None)
+                nobj = scn["runs"][sid]["nobj"]
+                if ncol is not None and ncol != nobj and scn["runs"][sid].get("fail", "none") == "none":
+                    raise HarnessError(f"header has {ncol} objective columns for a run-function with {nobj} objectives")
+                acts.append({"a": "end", "multi": (ncol if ncol is not None else nobj) > 1, "sizes": []})
     if scn.get("early"):
         # one process; the searches after the first were constructed when the directory was empty
         acts = list(runs[0]["acts"])
@@ -947,7 +1009,7 @@ def _check_record(ck, ev, scn, rec):
     for g in gs:
         ck.count("group:" + g["kind"])
     ck.count("writes-per-dump>1", sum(1 for g in gs if g["kind"] == "dump" and sum(1 for i in g["ops"] if ops[i]["op"] == "write") > 1))
-    torn = [o for o in ops if o["op"] == "write" and any(l[0] == "t" for l in o["lines"])]
+    torn = [o for o in ops if o["op"] == "write" and not o["data"].endswith("\n")]
     if torn:
         ck.fail("C15|write-splits-a-row|Evaluator.dump_jobs_done_to_csv|" + ("wide" if scn["runs"][-1].get("wide") else "any"),
                 "a write() call carries an incomplete CSV line: a kill after it leaves a torn row on disk", case,
@@ -1013,7 +1075,20 @@ def _has_success(text):
     if len(rows) < 2:
         return False
     cols = [i for i, c in enumerate(rows[0]) if c == "objective" or re.match(r"objective_\d+$", c)]
-    return any(len(r) > max(cols) and not any(r[i].startswith("F") for i in cols) for r in rows[1:]) if cols else False
+    if not cols:
+        return False
+    ok = 0
+    for r in rows[1:]:
+        if len(r) <= max(cols) or any(r[i].startswith("F") for i in cols):
+            continue
+        try:
+            [float(r[i]) for i in cols]
+        except ValueError:
+            # an objective cell that is neither a number nor a failure: the header was written before any evaluation
+            # had succeeded and has the wrong arity (C04's recorded finding) - nothing fit_surrogate could use
+            return False
+        ok += 1
+    return ok > 0
 
 
 def _norm_dir(d, exact):
@@ -1115,7 +1190,7 @@ def _check_kill(ck, ev, scn, rec, gs, runs, k, res):
     def on_check(rep):
         if not rep["visible"]:
             lines = rep["lines"]
-            if text is not None and not rep["wf"] and _headerless(scn, lines):
+            if text is not None and not rep["wf"] and _headerless(scn, lines, phase):
                 state["failed"] = True
                 ck.fail(FP_REUSE, "results.csv has no header line: the evaluator kept appending as for its previous search", case,
                         {"lines": lines[:6], "bytes_head": text[:200]})
@@ -1172,9 +1247,43 @@ def _check_kill(ck, ev, scn, rec, gs, runs, k, res):
             ev.ask({"op": "check", "text": res["files"][n], "sid": disk_owner.get(n, 0), "done": [], "dumped": []}, on_file)
     ev.ask({"op": "replay", "runs": runs, "sys_cut": k}, on_prefix)
 
+    # second injection mode: the same write torn at a few byte offsets
+    for tv in res.get("torn", []):
+        _check_torn(ck, ev, scn, case, tv, text, own, done, dumped)
     # nothing destroyed by the kill
     _check_snapshots(ck, scn, k, res["snaps"], res["files"], phase, case)
     _check_post(ck, ev, scn, case, phase, text, res, fail)
+
+
+def _check_torn(ck, ev, scn, case, tv, before, own, done, dumped):
+    """a torn write(2) is NOT part of the property's crash model (one write is taken as atomic): this records
+    what it would do, and checks the model's bound on the damage (theorem C15_torn_write)"""
+    tcase = {**case, "torn": {"bytes": tv["m"], "of": tv["of"], "file": tv["target"]}}
+    if tv["target"] != "results.csv":
+        ck.count("torn-write:to results.csv.tmp (results.csv untouched)")
+        if tv["text"] != before:
+            ck.mismatch(tcase, "a torn write to the temporary file changed results.csv")
+        return
+
+    text = tv["text"]
+    trimmed = text[: text.rfind("\n") + 1]
+    loader = "fit_surrogate loads it" if tv["fit"] == "ok" else "fit_surrogate raises"
+
+    def on_trim(rep):
+        # the damage bound (C15_torn_write): without its incomplete last line the file is a good table holding
+        # every dumped row
+        if not rep["visible"]:
+            ck.mismatch(tcase, {"torn": "the file minus its incomplete last line is not a well-formed table of finished evaluations",
+                                "lines": rep["lines"][-4:]})
+        elif trimmed == text:
+            ck.count("torn-write:append cut at a line boundary (still well formed)")
+        else:
+            ck.count("torn-write:append leaves one incomplete last line; " + loader)
+            tl = ck.extra_cov.setdefault("torn_write_examples", [])
+            if len(tl) < 4:
+                tl.append({"last_line": text[len(trimmed):][-80:], "fit_surrogate": tv["fit"]})
+        ck.case(tcase, nontrivial=trimmed != text)
+    ev.ask({"op": "check", "text": trimmed, "sid": own, "done": done, "dumped": dumped}, on_trim)
 
 
 def _check_post(ck, ev, scn, case, phase, text, res, fail):
@@ -1239,7 +1348,7 @@ def _run_cases(ck, pool, scns, kills_for):
             inj = _inject_for(rec["ops"], ops[k]["raw"])
             if inj is None:
                 continue
-            todo.append((scn, rec, gs, runs, k, {"scn": scn, "inject": inj, "post": True}))
+            todo.append((scn, rec, gs, runs, k, {"scn": scn, "inject": inj, "post": True, "torn": ops[k]["op"] == "write"}))
     t0 = time.time()
     ress = list(pool.map(_task, [t[-1] for t in todo]))
     # malformed stream for the loader model: mutated copies of real final files
@@ -1275,6 +1384,71 @@ def _run_cases(ck, pool, scns, kills_for):
         raise HarnessError("most injected kills were not reached: the traced runs are not reproducible")
 
 
+def _inprocess_slice(ck):
+    """a few un-killed scenarios in the check's own process (no strace, no fork), so that the line-coverage
+    probe of main.py sees the anchored code; judged by the same end-state oracle"""
+    scns = [
+        {"clock": "real", "runs": [{"kind": "random", "nobj": 2, "batch": 2, "calls": [3, 2], "fail": "first"}]},
+        {"clock": "const", "runs": [{"kind": "cbo", "nobj": 1, "batch": 2, "calls": [4]},
+                                    {"kind": "random", "nobj": 1, "batch": 2, "calls": [2], "reuse": True},
+                                    {"kind": "regevo", "nobj": 1, "batch": 2, "calls": [3]}]},
+        {"clock": "const", "early": True, "runs": [{"kind": "random", "nobj": 1, "batch": 2, "calls": [2]},
+                                                   {"kind": "eds", "nobj": 1, "batch": 2, "calls": [2]}]},
+        {"clock": "real", "runs": [{"kind": "random", "nobj": 1, "batch": 2, "calls": [2], "fail": "all"}]},
+        {"clock": "real", "runs": [{"kind": "cbo-dummy", "nobj": 2, "batch": 3, "calls": [{"t": 1}], "sleep": True}]},
+    ]
+    ev = _Eval(ck)
+    base = tempfile.mkdtemp(prefix="inproc", dir=_scratch())
+    saved = time.strftime
+    import logging
+
+    lvl = logging.root.manager.disable
+    logging.disable(logging.CRITICAL)
+    try:
+        for i, scn in enumerate(scns):
+            for r in scn["runs"]:
+                r.setdefault("wide", 0), r.setdefault("fail", "none"), r.setdefault("seed", 1)
+            ld, side, side2 = (os.path.join(base, f"{x}{i}") for x in ("ld", "side", "cont"))
+            for d in (ld, side, side2):
+                os.makedirs(d)
+            case = {"scn": scn, "kill": None, "in_process": True}
+            try:
+                _program(scn, ld, side)
+            except Exception as e:  # noqa
+                ck.fail("C15|search-raises|Search.search|" + scn["runs"][-1]["kind"], "a search run in the check's own process raised", case, repr(e))
+                continue
+            finally:
+                time.strftime = saved
+            files = {n: t for n, t in _read_dir(ld).items() if _is_result_name(n)}
+            sidef = _read_dir(side)
+            snaps = {n: t for n, t in sidef.items() if n.startswith("snap_")}
+            done = _done_jobs([l for l in sidef.get("done.log", "").split("\n") if l])
+            _check_snapshots(ck, scn, None, snaps, files, "finished", case)
+            post = _continuation(scn, ld, side2)
+            fin = files.get("results.csv")
+            own = max(j[0] for j in done) if done else 0
+
+            def on_final(rep, case=case, fin=fin, scn=scn):
+                if not rep["visible"]:
+                    ck.fail(FP_REUSE if _headerless(scn, rep["lines"]) else "C15|wellformed-or-absent|finished|any",
+                            "the results.csv left by a search that ran to its end is not header + complete rows of finished evaluations",
+                            case, {"lines": rep["lines"][:6], "bytes_head": (fin or "")[:200]})
+            if fin is not None:
+                ev.ask({"op": "check", "text": fin, "sid": own, "done": done, "dumped": []}, on_final)
+                if _has_success(fin) and post.get("fit") not in (None, "ok"):
+                    ck.fail("C15|reload|finished|any", "CBO.fit_surrogate cannot load the results.csv of a finished search", case, post["fit"])
+            if post.get("cont") != "ok":
+                ck.fail("C15|continue|finished|any", "a new search in the log_dir of a finished search does not run", case, post.get("cont"))
+            ck.case(case, nontrivial=True)
+            ck.count("in-process scenario")
+        ev.flush()
+    finally:
+        ev.close()
+        time.strftime = saved
+        logging.disable(lvl)
+        shutil.rmtree(base, ignore_errors=True)
+
+
 def run(ck):
     ck.rule = ("real RandomSearch/CBO(ET) searches (serial evaluator; 1-3 objectives; batches 1-8; 1-3 search() calls; failing "
                "evaluations none/first batch/some/all; narrow and wide rows; 1-5 searches per log_dir, real or constant clock) traced "
@@ -1292,6 +1466,7 @@ def run(ck):
         "pandas.read_csv / csv.DictWriter / the OS file system are modelled, not verified",
     ]
     os.environ["C15_SCRATCH"] = f"{SCRATCH}_{os.getpid()}"
+    _inprocess_slice(ck)
     with _pool() as pool:
         corpus = _corpus_cases()
         if corpus:
